@@ -374,6 +374,11 @@ fn c14_laws(rep: &mut Report, tier: Tier) {
     let k2 = "a".repeat(18);
     let k3 = format!("{}b", "a".repeat(16));
     c14_law_universe(rep, tier, &long_leaves, &["az", &k1, &k2, &k3], "law_universe_long");
+    // keys and strings on which the byte (code-point) order and the UTF-16 order disagree
+    // (U+E000..U+FFFF against the supplementary planes): whichever order the type uses, `cmp`,
+    // `partial_cmp` and the operators have to use the same one
+    let orders = [RV::Null, RV::str("\u{ffff}"), RV::str("\u{10000}"), RV::str("\u{e000}z"), RV::num("0")];
+    c14_law_universe(rep, tier, &orders, &["\u{ffff}", "\u{10000}", "\u{e000}\u{10ffff}", "a"], "law_universe_two_orders");
 }
 
 fn c14_law_universe(rep: &mut Report, tier: Tier, leaves: &[RV], keys: &[&str], uname: &str) {
